@@ -382,6 +382,9 @@ class JitterAmountAdapter:
     is_fast = True
 
     def initialize(self, chain_state, transition):  # noqa: ARG002
+        # like the real adapters, start every chain from the same parameter value: chains handled by one
+        # worker process share the transition object
+        transition.amount = 0.05
         return {"iter": 0, "sum_abs": 0.0}
 
     def update(self, adapt_state, chain_state, trans_stats, transition):  # noqa: ARG002
